@@ -6,9 +6,9 @@ Init == l = 1
 Watched == {"9001", "9002", "10", "9004", "9005"}
 Next == /\ l <= Len(Rec)
         /\ LET ev == Rec[l]
-               t == Truth(ev.pk, NoFilter, TRUE)
+               t == Truth(ev.pk, ev.flt, ev.analysing)
                truth == [cdps |-> t.rdhs_seen, pht |-> t.trig[4], version |-> t.rdh_version, chips |-> ev.chips, order |-> ev.order]
-               exp == ExpectedCodes(ev.cfg, truth, ev.stave, ev.ob)
+               exp == ExpectedCodesIn(ev.cfg, truth, ev.stave, ev.ob, ev.checking)
                obs == {ev.codes[i] : i \in 1..Len(ev.codes)} \cap Watched
            IN /\ IF exp = obs THEN TRUE ELSE PrintT("REJECT " \o ToJson([l |-> l, tag |-> "codes", expected |-> exp, observed |-> obs]))
               \* the streams are conforming: the any-errors exit status (77) is returned exactly when a configured check fails
